@@ -6,13 +6,17 @@ from val import T, dumps, some
 from props.common import boot_ops, brokers, rand_bytes, rand_topic
 
 SLICE = "ProduceRequest / MessageProduceRequest encoding (KafkaClient::produce_messages, Producer::send_all), gzip and raw-snappy wrappers"
-RULE = ("random batches of 1-14 records (thorough: up to 30) over 1-4 topics x 1-4 partitions on 1-3 brokers, repeated partitions in one batch; keys and "
-        "values drawn from {null, empty, 1 byte, short binary, all 256 byte values, 1-20 KiB binary or compressible}; every batch is sent "
-        "with compression NONE, GZIP or SNAPPY through KafkaClient::produce_messages (set_compression) or through a Producer "
-        "(with_compression + send_all, where an empty slice means absent), acks in {1,-1,0}; a few batches exceed 64 KiB per partition "
-        "(several snappy blocks). The produce requests received by the reference brokers are parsed with the independent codec "
-        "(kproto, strict) and zlib; non-trivial = every batch of the case reached a broker as a produce request with a non-empty message set "
-        "and the case mixes at least two of {null, empty, non-empty} keys/values or holds a payload >= 1 KiB")
+RULE = ("random batches of 1-14 records (thorough: up to 30) over 1-4 topics x 1-4 partitions on 1-3 brokers, partitions repeated within a "
+        "batch, 1-2 batches per case; keys and values drawn from {null, empty, 1 byte, 2-40 bytes binary, 'ab' strings, all 256 byte values, "
+        "runs of zero bytes, 41-400 bytes}; size classes per case: small (80%), one or two 1-4 KiB payloads incl. 4095/4096/4097 (16%), one "
+        "6-8 KiB payload (2-3%), one 12-20 KiB payload (quick: 4 cases, thorough: 48), thorough only: 2 cases whose plain set for one "
+        "partition exceeds 64 KiB (several snappy blocks); binary and compressible big payloads, as key or as value. Every class is spread "
+        "evenly over compression {NONE, GZIP, SNAPPY} x {KafkaClient::produce_messages after set_compression, Producer built with "
+        "with_compression + send_all, where an empty slice means absent}; acks in {1,-1,0}. (Big payloads are rationed because the "
+        "extracted model's cost grows faster than linearly with the request size.) The produce requests received by the reference brokers "
+        "are parsed with the independent codec (kproto, strict) and zlib; non-trivial = every batch of the case reached a broker as a "
+        "produce request with a non-empty message set and the case mixes at least two of {null, empty, non-empty} keys/values or holds a "
+        "payload >= 1 KiB")
 ASSUMPTIONS = ["tools/kproto.py (message-set parser, gzip via zlib, pure-python snappy block decoder) is an independent, conforming "
                "implementation of the Kafka v0 message format",
                "zlib.crc32 is CRC-32/ISO-HDLC"]
@@ -120,8 +124,8 @@ def make_case(rng, tier, mode=None, codec=None, size="small"):
 
 def gen(rng, tier):
     quick = tier == "quick"
-    plan = [("small", 420 if quick else 4200), ("kib", 84 if quick else 900), ("8k", 18 if quick else 120),
-            ("20k", 6 if quick else 48), ("huge", 0 if quick else 2)]
+    plan = [("small", 420 if quick else 4200), ("kib", 84 if quick else 900), ("8k", 12 if quick else 120),
+            ("20k", 4 if quick else 48), ("huge", 0 if quick else 2)]
     cases = []
     # the expensive classes first and adjacent, so that the checker's round-robin sharding spreads them over the workers
     for size, n in reversed(plan):
